@@ -168,3 +168,63 @@ Section LoopProofs.
     rewrite norm_sqr_diff_same. rewrite <- (map_id (f x)) at 1. apply map_ext. intros; lia.
   Qed.
 End LoopProofs.
+
+(* ------------------------------------------------------------------------------------------ *)
+(* top-level statements with all hypotheses explicit *)
+Theorem generation_loop_invariant :
+  forall (f : list Z -> list Z) feasible closest alpha m lcs mu d (P : list Z -> Prop),
+    valid_oracle lcs -> 1 <= mu -> (forall x, length (f x) = d) ->
+    forall pop0, inv f feasible closest alpha mu P pop0 ->
+    (forall history, Forall (Forall P) history ->
+       let pop := run_gen f feasible closest alpha m lcs mu history pop0 in
+       inv f feasible closest alpha mu P pop /\
+       length (solution pop) = mu /\
+       forall x v, In (x, v) (solution pop) ->
+         P x /\ v = f (repaired feasible closest x) /\ (feasible x = true -> v = f x)) /\
+    (forall history, Forall P history ->
+       let pop := run_ss f feasible closest alpha m lcs mu history pop0 in
+       inv f feasible closest alpha mu P pop /\
+       length (solution pop) = mu /\
+       forall x v, In (x, v) (solution pop) ->
+         P x /\ v = f (repaired feasible closest x) /\ (feasible x = true -> v = f x)).
+Proof.
+  intros f feasible closest alpha m lcs mu d P V Hmu FD pop0 I0. split.
+  - intros history H. cbn zeta.
+    pose proof (run_gen_invariant f feasible closest alpha m lcs mu V Hmu d FD P history pop0 I0 H) as I.
+    split; auto. apply (solution_spec f feasible closest alpha mu P _ I).
+  - intros history H. cbn zeta.
+    pose proof (run_ss_invariant f feasible closest alpha m lcs mu Hmu P history pop0 I0 H) as I.
+    split; auto. apply (solution_spec f feasible closest alpha mu P _ I).
+Qed.
+
+(* the population doInit builds from feasible starting points satisfies the invariant *)
+Theorem initial_population_inv :
+  forall (f : list Z -> list Z) feasible closest alpha mu (P : list Z -> Prop) (points : list (list Z)),
+    1 <= mu -> length points = mu -> Forall (fun x => feasible x = true /\ P x) points ->
+    inv f feasible closest alpha mu P (map (fun x => mk_ind x (f x) (f x)) points).
+Proof.
+  intros f feasible closest alpha mu P points Hmu L H. split; [now rewrite map_length|].
+  rewrite Forall_forall in *. intros i Hi. apply in_map_iff in Hi. destruct Hi as [x [<- Hx]].
+  destruct (H x Hx) as [F Px]. split; [now apply (initial_consistent f feasible closest alpha mu Hmu)|exact Px].
+Qed.
+
+(* satisfiability / a worked run: one variable in the box [0,6], f(a) = (a, 6-a), mu = 3, AdditiveEpsilonIndicator,
+   penalty factor 1000; the second offspring of the first generation (9) lies outside the box *)
+From SharkV Require Import C14Ind C14IndProofs.
+Definition loop_fex (x : list Z) : list Z := match x with [a] => [a; 6 - a]%Z | _ => [0; 0]%Z end.
+Example loop_example :
+  let feasible := box_feasible [0%Z] [6%Z] in let closest := box_closest [0%Z] [6%Z] in
+  let pop0 := map (fun x => mk_ind x (loop_fex x) (loop_fex x)) [[1]; [3]; [5]]%Z in
+  valid_oracle eps_lcs /\ (forall x, length (loop_fex x) = 2) /\
+  inv loop_fex feasible closest 1000%Z 3 (fun _ => True) pop0 /\
+  solution (run_gen loop_fex feasible closest 1000%Z 0 eps_lcs 3 [[[2]; [9]]; [[4]; [0]]]%Z pop0) =
+    [([2], [2; 4]); ([4], [4; 2]); ([0], [0; 6])]%Z /\
+  solution (run_ss loop_fex feasible closest 1000%Z 0 eps_lcs 3 [[2]; [9]; [4]]%Z pop0) =
+    [([4], [4; 2]); ([3], [3; 3]); ([5], [5; 1])]%Z.
+Proof.
+  cbv zeta. split; [exact eps_lcs_valid|]. split.
+  - intros [|a [|b x]]; reflexivity.
+  - split; [|split; vm_compute; reflexivity].
+    apply initial_population_inv; [lia|reflexivity|].
+    repeat constructor.
+Qed.
